@@ -187,6 +187,20 @@ func cmdCheck(args []string) int {
 		}()
 	}
 	wg.Wait()
+	// rescue pass: an obligation left undecided while all cores were busy (a timeout is wall-clock) is run again on
+	// its own, one at a time, with a longer budget, before it is reported; a refuted obligation (sat) is final
+	rescued := 0
+	for _, r := range run.results {
+		if r == nil || r.Enc == nil || r.Err != "" {
+			continue
+		}
+		for _, ob := range r.Obs {
+			if ob.Status == "unknown" && ob.Kind != "cover" && rescued < 10 {
+				rescued++
+				retry(r, ob, solveOpts{timeoutMs: 3 * timeout, workers: 1, keepDir: filepath.Join(verifDir(), "out", "failed", prop)})
+			}
+		}
+	}
 	run.lemmas = lemmas
 	return report(run, w, db)
 }
